@@ -8,10 +8,10 @@ CATS = {
  "A": "another deterministic hash / index / fingerprint function (same function on the write and the read path): only collision statistics change, which are C07 / C08 (not applicable)",
  "B": "sizing arithmetic of the accuracy constructors or the cardinality / length estimators: accuracy statements C03 / C07 / C08 (not applicable); no claimed property fixes these numbers",
  "C": "unreachable, dead or equal at the boundary (the mutated expression cannot evaluate differently on any reachable state)",
- "D": "a constant or tie-break the properties leave open, or an effect inside the tolerance the statement grants (O(1/k) gap-sampling bias, cluster-size constants within the W bound, a block of over-allocation within the C11 factor)",
+ "D": "a constant or tie-break the properties leave open, or an effect inside the tolerance the statement grants (O(1/k) gap-sampling bias, cluster-size constants within the W bound, a block of over-allocation within the C11 factor; plain or Bernoulli reservoir sampling where the gap approximation was: still uniform)",
  "E": "needs more than 2^32 slots / an astronomically long stream",
- "F": "capacity or speed only: inserts fail earlier with the state restored, runs are scanned completely instead of up to the sorted position, contents of free slots",
- "G": "text of a message, serializer length hint",
+ "F": "capacity or speed only: inserts fail earlier with the state restored, only one of the two candidate buckets is tried first, runs are scanned completely or kept in the mirrored order, contents of free slots",
+ "G": "text or arguments of a message, serializer length hint, duplicate JSON fields accepted with the last value (C20 allows acceptance when the resulting sketch satisfies the invariants)",
  "H": "`Filter for HashSet`::clear (not one of the nine structures of C19; C01 only forbids false negatives)",
  "GAP": "a real gap of the checks, closed because of this sweep (see DESIGN section 9)",
 }
@@ -27,24 +27,37 @@ RULES = [
  (r"^tdigest:(908|919)#", "GAP"), (r"^lossycounter:268#5", "GAP"),
 ]
 
-def cat(mid):
-    for rx, c in RULES:
+RULES2 = [
+ (r"^(helpers:38|tdigest:366#1|reservoirsampling:(113|121|128)#)", "D"),
+ (r"^(countminsketch:(275|280)#|hll_serde:)", "G"),
+ (r"^(tdigest:(296|466|494)#|cuckoofilter:(546|552)#|quotientfilter:(385|508|568|584|604)#|cmsheap:(36|47)#)", "C"),
+ (r"^(cuckoofilter:332#|hll_mod:)", "B"),
+ (r"^(cuckoofilter:(446|450|456|470|513|553)#|quotientfilter:431#)", "F"),
+]
+
+
+def cat(mid, sweep=1):
+    for rx, c in RULES if sweep == 1 else RULES2:
         if re.match(rx, mid):
             return c
     return None
 
 s1 = collections.Counter()
-for f in glob.glob("/tmp/mu/results/stage1/*.json"):
-    s1[json.load(open(f))["status"]] += 1
+for d in ("/tmp/mu", "/tmp/mu2"):
+    for f in glob.glob(d + "/results/stage1/*.json"):
+        s1[json.load(open(f))["status"]] += 1
 rows = []
-for f in sorted(glob.glob("/tmp/mu/results/stage2/*.json")):
+for f in sorted(glob.glob("/tmp/mu/results/stage2/*.json")) + sorted(glob.glob("/tmp/mu2/results/stage2/*.json")):
+    sweep = 2 if f.startswith("/tmp/mu2") else 1
     r = json.load(open(f))
+    if sweep == 2:
+        r["id"] = "b:" + r["id"]
     src = open("/repo/" + r["file"]).read().split("\n")[r["line"] - 1].strip()
     classes = sorted({c for ch in r["checks"] for c in ch["classes"]})
     row = {"id": r["id"], "file": r["file"], "line": r["line"], "old": r["old"], "new": r["new"], "source_line": src,
            "caught_by": r.get("caught_by"), "classes": classes[:4]}
     if r["status"] != "caught":
-        c = cat(r["id"])
+        c = cat(r["id"][2:], 2) if sweep == 2 else cat(r["id"])
         assert c, r["id"]
         row["triage"] = c
     rows.append(row)
@@ -60,12 +73,13 @@ summary = {"mutants": sum(s1.values()), "stage1": dict(s1), "survivors_of_unit_t
            "caught_by_property": dict(sorted(by_prop.items())), "not_caught": len(unc), "not_caught_by_category": dict(sorted(bycat.items()))}
 json.dump(summary, open("/verif/mutation/summary.json", "w"), indent=1)
 with open("/verif/mutation/README.md", "w") as fh:
-    fh.write("# Single-token mutation sweep\n\n")
+    fh.write("# Mutation sweeps\n\n")
     fh.write("Generated by `tools/mutation_report.py` from the results of `tools/mutation_sweep.py` (operators: relational, arithmetic, "
              "logical and shift operators swapped, integer / float literals +-1 / x2 / /2, `min`/`max`, `wrapping`/`saturating`, `pop_front`/`pop_back` ..., "
              "`true`/`false`, dropped `!` / `.rev()`, narrowing casts `as u16 as usize` / `as u32 as u64`, `..=` -> `..`, deletion of single-line statements; "
-             "test modules, assertions, Debug impls and the HLL bias tables excluded). The sweep complements the hand-written changes in `seeded/`: "
-             "it is systematic where those are imaginative.\n\n")
+             "test modules, assertions, Debug impls and the HLL bias tables excluded; a second sweep, ids prefixed `b:`, works on branches: `if` / `while` conditions forced to true / false / negated, "
+             "conjuncts dropped, relations inverted, `+ 1` / `- 1` dropped or flipped, `self.`/`other.`, `i1`/`i2`, `w`/`d`, `.0`/`.1`, `first`/`last`, `min`/`max` exchanged). The sweeps complement the hand-written changes in `seeded/`: "
+             "they are systematic where those are imaginative.\n\n")
     fh.write("| stage | count |\n|---|---|\n")
     fh.write("| mutants generated | %d |\n| do not compile | %d |\n| fail the 213 unit tests | %d |\n| unit tests do not terminate | %d |\n| **pass the unit tests** | **%d** |\n"
              % (sum(s1.values()), s1["compile-fail"], s1["test-fail"], s1["timeout"], len(rows)))
